@@ -4,7 +4,7 @@
    action from an address that has not joined, game action with missing/invalid parameters.
 *)
 From Coq Require Import ZArith NArith List Bool Arith.
-From NSG Require Import Base.Prelude Model.Defender Model.Coord Proofs.CoordBase Proofs.CoordInv Proofs.CoordInvConn Proofs.CoordInvDispatch Proofs.CoordInvHandler Proofs.CoordProps Proofs.CoordDirect Proofs.CoordInv2 Proofs.CoordAgentStep Proofs.CoordBarrier Proofs.CoordMeasure Proofs.CoordIsolation Proofs.CoordLimit.
+From NSG Require Import Base.Prelude Model.Defender Model.Coord Proofs.CoordBase Proofs.CoordInv Proofs.CoordInvConn Proofs.CoordInvDispatch Proofs.CoordInvHandler Proofs.CoordProps Proofs.CoordDirect Proofs.CoordInv2 Proofs.CoordAgentStep Proofs.CoordBarrier Proofs.CoordMeasure Proofs.CoordIsolation Proofs.CoordLimit Proofs.CoordKinds.
 Import ListNotations.
 
 (* garbage: BAD_REQUEST from the dispatcher; agents, world, events, trajectory files, handlers and all other connections unchanged *)
@@ -43,6 +43,17 @@ Theorem C09_frame :
         @In (@handler V G) h (@handlers V W G (@respond V W G (@remove_handler V W G s id) c r)) <->
         @In (@handler V G) h (@handlers V W G s) /\ @h_id V G h <> id).
 Proof. exact (@respond_frame). Qed.
+
+(* the dispatcher itself answers only unparsable messages: BAD_REQUEST on the sender's queue, nothing else *)
+Theorem C09_dispatcher_answers :
+  forall (V W G : Type) (s : @state V W G) (x : addr * @msg G),
+       match @snd addr (@msg G) x with
+       | MGarbage =>
+           @conns V W G (@dispatch1 V W G s x) =
+           @conns_put V W G s (@fst addr (@msg G) x) (@QResp V G (@RBad V G))
+       | _ => @conns V W G (@dispatch1 V W G s x) = @conns V W G s
+       end.
+Proof. exact (@dispatch1_answer). Qed.
 
 (* whatever the message, the handler working for address c0 leaves the record of every other agent untouched *)
 Theorem C09_others :
@@ -98,6 +109,7 @@ Proof. vm_compute. repeat split; reflexivity. Qed.
 Print Assumptions C09_garbage.
 Print Assumptions C09_reject.
 Print Assumptions C09_frame.
+Print Assumptions C09_dispatcher_answers.
 Print Assumptions C09_others.
 Print Assumptions C09_world.
 Print Assumptions C09_alive.
